@@ -15,6 +15,7 @@ GATES = [
     ("UP_KIND", "C04", "only Pull/Terminate/Error go upstream"),
     ("UP_GREETED", "C04", "nothing is sent to an upstream before it greeted"),
     ("UP_PULL_LIVE", "C04", "no Pull to an upstream that is over"),
+    ("UP_PULL_OVER", "C04", "no Pull to a member that is over, once the output itself is over"),
     ("UP_TERM_ONCE", "C04", "an upstream is terminated at most once"),
     ("UP_TERM_SELF", "C04", "no termination of an upstream that ended by itself"),
     ("SUB_KIND", "C04", "a source is only ever greeted"),
@@ -27,7 +28,7 @@ GATES = [
     ("FLAT_ROUTE", "C11", "a Pull goes to the active inner if there is one, else to the outer"),
     ("NESTED", "C15", "no delivery begins while an earlier one is in progress"),
     ("ERR_ID", "C05", "the error delivered is the error received"),
-    ("OP1", "C08", "operator-specific clause 1"),
+    ("MERGE_DONE", "C08", "merge completes the sink only when every member has completed"),
     ("OP2", "C10", "operator-specific clause 2"),
     ("OP3", "C12", "operator-specific clause 3"),
     ("OP4", "C16", "operator-specific clause 4"),
